@@ -329,13 +329,13 @@ def encode (o : SortOptions) : Ty → Val → List UInt8
       | .tuple [a, b] => encode (childOpts o) k a ++ encode (childOpts o) v b
       | _ => [])))).flatten ++ encodeVar o (some [])
   | .map _ _, _ => []
-  /- `Encoder::Union`: the type id byte (inverted when descending) followed by the child row,
-  which is encoded ascending and — as written — copied without inversion.  A null slot of an
-  enclosing struct/dictionary is `new_null_array`: the first field's id with a null child. -/
+  /- `Encoder::Union`: the type id byte followed by the child row, which is encoded ascending;
+  both are inverted when descending.  A null slot of an enclosing struct/dictionary is
+  `new_null_array`: the first field's id with a null child. -/
   | .union ids kids, .union idx v =>
-    invIf o.descending [UInt8.ofNat (ids.getD idx 0)] ++ encodeNth (childOpts o) kids idx v
+    invIf o.descending (UInt8.ofNat (ids.getD idx 0) :: encodeNth (childOpts o) kids idx v)
   | .union ids kids, _ =>
-    invIf o.descending [UInt8.ofNat (ids.getD 0 0)] ++ encodeNth (childOpts o) kids 0 .null
+    invIf o.descending (UInt8.ofNat (ids.getD 0 0) :: encodeNth (childOpts o) kids 0 .null)
 def encodeNth (o : SortOptions) : List Ty → Nat → Val → List UInt8
   | t :: _, 0, v => encode o t v
   | _ :: ts, n + 1, v => encodeNth o ts n v
